@@ -274,8 +274,8 @@ theorem runProgram_eq (fuel : Nat) (blk : ExecBlock) (stmts : List Stmt) (hblk :
     Model.runProgram (ν := ν) fuel ⟨[], some blk⟩ [] (initVM ()) =
       (evalExecBlock fuel (some blk) [] >>= fun r => popFrame >>= fun _ => pure r) startS := by
   subst hblk
-  simp only [Model.runProgram, M.bind_def, modifyVM, pushFrame_eq, List.isEmpty_nil, not_true_eq_false, if_false,
-    List.mapM_nil, pure]
+  simp only [Model.runProgram, Model.runProgramWith, Model.evalProgram, List.forM_nil, M.bind_def, modifyVM, pushFrame_eq,
+    List.isEmpty_nil, not_true_eq_false, if_false, List.mapM_nil, pure]
   rfl
 
 theorem specRunProgram_eq (fuel : Nat) (blk : ExecBlock) (stmts : List Stmt) (hblk : blk = .mk [] (some stmts) []) (σ : SState ν) :
